@@ -11,6 +11,8 @@ import (
 	"vh/ref/sec"
 )
 
+var c05Prev struct{ k, op, rnd, sqn []byte }
+
 var c05Record = tglib.GetAuthSubscription("", "", "")
 
 // C05 — RES* and the NAS key hierarchy installed by DeriveRESstarAndSetKey equal what the network derives
@@ -54,8 +56,23 @@ func runC05(c *fw.Case) (o fw.Outcome) {
 		bit := (c.Idx / 64) % 128
 		rnd[bit/8] = 0x80 >> uint(bit%8)
 	}
-	opc := sec.ComputeOPc(k, op)
 	sqn := cornerBytes(r, 6)
+	// one case in three RESEMBLES the previous case of this process: a random subset of (K, OP, RAND, SQN) is carried over,
+	// possibly with one bit changed - two subscribers of one operator, one subscriber challenged twice, the same challenge
+	// replayed to another subscriber. A derivation is a function of its arguments, not of its predecessor.
+	if c.Idx%3 == 1 && c05Prev.k != nil {
+		for i, f := range []*[]byte{&k, &op, &rnd, &sqn} {
+			if r.Intn(2) == 0 {
+				*f = append([]byte(nil), [][]byte{c05Prev.k, c05Prev.op, c05Prev.rnd, c05Prev.sqn}[i]...)
+				if r.Intn(3) == 0 {
+					(*f)[r.Intn(len(*f))] ^= 1 << uint(r.Intn(8))
+				}
+			}
+		}
+		o.Tag("resembles-previous-case")
+	}
+	c05Prev.k, c05Prev.op, c05Prev.rnd, c05Prev.sqn = k, op, rnd, sqn
+	opc := sec.ComputeOPc(k, op)
 	amf := []byte{0x80, 0x00}
 	if r.Intn(2) == 0 {
 		amf = rbytes(r, 2)
